@@ -179,6 +179,16 @@ def c17_sweep(ctx, rng, stride=1, which="gen"):
                 ctx.evaluations += 1; ctx.traces_validated += 1
                 if rc == 0 or rc2 == 0:
                     accepted.append({"offset": off, "old": data[off], "new": new, "context": data[max(0, off - 12):off + 12].decode("latin1")})
+        if which != "lock":
+            # every one-byte append (each kind of white space included: a final newline is a change of bytes) and the first truncations
+            variants = [("append", data + bytes([b])) for b in (0x0a, 0x0d, 0x20, 0x09, 0x00, 0x7d, 0x78)] + [("append", data + b"\r\n")] + \
+                       [("truncate", data[:len(data) - k]) for k in (1, 2, 3)] + ([("strip_final_newline", data[:-1])] if data.endswith(b"\n") else [])
+            for what, new_data in variants:
+                open(os.path.join(d, fn), "wb").write(new_data)
+                rc, out, err, raw = cli(d, "config", "show"); rc2, out2, err2, raw2 = cli(d, "target", "show")
+                ctx.evaluations += 1; ctx.traces_validated += 1; ctx.count("sweep_%s_%s" % (which, what))
+                if rc == 0 or rc2 == 0:
+                    accepted.append({"edit": what, "tail": new_data[-6:].hex()})
         open(os.path.join(d, fn), "wb").write(data)
         rc, out, err, raw = cli(d, "config", "show")
         ok = not accepted and rc == 0
@@ -270,6 +280,8 @@ def serialisations(rng, cfg):
             for delta in (0, 1, 2):
                 pad = seam - mb - delta
                 if pad >= 0: out.append(("seam_%d_%d" % (seam, delta), " " * pad + compact))
+    for size in (1200000, 3000000):      # beyond a megabyte
+        out.append(("lead_pad_%d" % size, " " * (size - len(compact)) + compact)); out.append(("tail_pad_%d" % size, compact + "\n" * (size - len(compact))))
     for size in (9000, 70000, 300000):
         pad = max(0, size - len(compact))
         out.append(("lead_pad_%d" % size, " " * pad + compact))
